@@ -134,12 +134,27 @@ func VerifC10Mixed() {
 	if bad == nil {
 		return
 	}
-	// the mixed announcement, rejected head at either position
-	ann := []ipfslog.Entry{v1.Copy(), bad.Copy()}
-	if vstub.NdChoice("badFirst", 2) == 1 {
-		ann = []ipfslog.Entry{bad.Copy(), v1.Copy()}
+	// the rejected entry may CLAIM the address of the valid entry (the claimed address
+	// of an announced head is whatever the sender wrote): a verdict remembered under
+	// that address must not stick to the valid entry
+	claims := vstub.NdChoice("claims-valid-address", 2) == 1
+	if claims {
+		c := bad.Copy()
+		c.SetHash(v1.GetHash())
+		bad = c
+		vstub.Cover("claims-valid-address")
 	}
-	_ = a.Sync(context.Background(), ann) // may report an error: a mixed announcement may be dropped as a whole
+	// the mixed announcement, rejected head at either position, or the rejected head
+	// alone BEFORE the valid one is announced
+	switch vstub.NdChoice("mix", 3) {
+	case 0:
+		_ = a.Sync(context.Background(), []ipfslog.Entry{v1.Copy(), bad.Copy()}) // may report an error: a mixed announcement may be dropped as a whole
+	case 1:
+		_ = a.Sync(context.Background(), []ipfslog.Entry{bad.Copy(), v1.Copy()})
+	case 2:
+		_ = a.Sync(context.Background(), []ipfslog.Entry{bad.Copy()})
+		vstub.Cover("rejected-alone-first")
+	}
 	vstub.WaitIdle()
 
 	// honest re-announcement of the valid head
@@ -162,7 +177,7 @@ func VerifC10Mixed() {
 	vstub.Assert(inLog(a, v2), "C10 a later valid head still replicates")
 	vstub.Assert(inLog(a, v1), "C10 its ancestry is in the log")
 	// rejected entries never enter
-	if bad.GetIdentity().ID == vstub.IDOf("mallory") {
+	if !claims && bad.GetIdentity().ID == vstub.IDOf("mallory") {
 		vstub.Assert(!inLog(a, bad), "C10/C03 the non-writer's entry is not in the log")
 	}
 }
